@@ -867,7 +867,7 @@ func genC19(o *vcoq.Out, r *vcoq.Rand, tier string) error {
 	o.CaseType = "c19case"
 	o.Judge = "judge"
 	o.Shard = 200
-	nRandom, maxLen, exLen, nConc, nStream, nRace, nCfg, nOpt := 1500, 14, 3, 150, 500, 2500, 700, 800
+	nRandom, maxLen, exLen, nConc, nStream, nRace, nCfg, nOpt := 1500, 14, 3, 150, 500, 2500, 500, 600
 	if tier == "thorough" {
 		nRandom, maxLen, exLen, nConc, nStream, nRace, nCfg, nOpt = 20000, 24, 4, 2500, 8000, 40000, 10000, 10000
 	}
